@@ -200,9 +200,8 @@ def np_ray_length(p, d, r, h):
 
 
 def moments(loc, w):
-    """Raw moments of a weighted point set given in local coordinates, about the solid's
-    centre line: dict with m0, m1 (3), and the 3x3 second-moment matrix about (0, 0, zc)
-    where zc is supplied by the caller through ``loc`` already being centred or not."""
+    """Raw moments of a weighted point set about the origin of the coordinates given:
+    m0 = sum w, m1[i] = sum w x_i, m2[i, j] = sum w x_i x_j."""
     loc = np.asarray(loc, dtype=float)
     w = np.asarray(w, dtype=float)
     m0 = w.sum()
